@@ -163,12 +163,13 @@ pub fn make_linked_list<'a>(vbar: bool, mut terms: Vec<Unifiable>) -> Unifiable 
 ///
 pub fn equal_escape(vec_chars: &Vec<char>, index: usize, ch: char) -> bool {
     if vec_chars[index] == ch {
-        if index > 0 {
-            if vec_chars[index - 1] == '\\' {
-                return false;
-            }
+        // The character is escaped when an odd number of backslashes
+        // comes before it. (An even number is a run of escaped backslashes.)
+        let mut count = 0;
+        while count < index && vec_chars[index - 1 - count] == '\\' {
+            count += 1;
         }
-        return true;
+        return count % 2 == 0;
     }
     false
 } // equal_escape()
